@@ -9,6 +9,7 @@ pub mod c01;
 pub mod c03;
 pub mod c05;
 pub mod c09;
+pub mod c10;
 pub mod c11;
 pub mod c19;
 
@@ -46,6 +47,12 @@ pub fn all() -> Vec<Check> {
             props: c09::props,
             describe: c09::describe,
             sweeps: Some(c09::sweeps),
+        },
+        Check {
+            id: "C10",
+            props: c10::props,
+            describe: c10::describe,
+            sweeps: Some(c10::sweeps),
         },
         Check {
             id: "C11",
